@@ -79,7 +79,7 @@ def build_and_run_replay(run, q, case, rdir):
     io = os.path.join(rdir, 'inputs.o')
     cc(['clang', '-c', src, '-o', io])
     exe = os.path.join(rdir, 'replay')
-    link = ['clang++' if cxx else 'clang', '-fsanitize=address,undefined', '-Wl,--gc-sections'] + objs + [ho, rt, io]
+    link = ['clang++' if cxx else 'clang', '-fsanitize=address,undefined', '-Wl,--gc-sections', '-Wl,--allow-multiple-definition'] + objs + [ho, rt, io]
     r = subprocess.run(link + ['-o', exe, '-lm', '-ldl'], capture_output=True, text=True)
     log.append(' '.join(link))
     if r.returncode != 0:
@@ -98,7 +98,7 @@ def build_and_run_replay(run, q, case, rdir):
         cc(link + [so, '-o', exe, '-lm', '-ldl'])
     with open(os.path.join(rdir, 'build.log'), 'w') as f:
         f.write('\n'.join(log) + '\n')
-    env = dict(os.environ, ASAN_OPTIONS='exitcode=99:detect_leaks=0:abort_on_error=0', UBSAN_OPTIONS='print_stacktrace=0')
+    env = dict(os.environ, ASAN_OPTIONS='exitcode=99:detect_leaks=0:abort_on_error=0:detect_odr_violation=0', UBSAN_OPTIONS='print_stacktrace=0')
     try:
         r = subprocess.run([exe], capture_output=True, text=True, timeout=120, env=env, errors='replace')
         rc, out = r.returncode, (r.stdout + r.stderr)
